@@ -183,6 +183,10 @@ func (x *world) checkC13w(label string) {
 			asc = false
 		}
 		for _, b := range res.MinedTransactions {
+			if b.Height < 0 || b.Hash == nil {
+				x.fail("c13w:range:unconfirmed-listed-as-block", "%s: GetTransactions(%d,%d) lists a block of height %d among the mined ones", label, g.a, g.b, b.Height)
+				return
+			}
 			if lastH != -2 && ((asc && b.Height <= lastH) || (!asc && b.Height >= lastH)) {
 				x.fail("c13w:range:block-order", "%s: GetTransactions(%d,%d) lists block %d after block %d", label, g.a, g.b, b.Height, lastH)
 				return
